@@ -1,5 +1,6 @@
 """C14 — a parsed beacon configuration is an immutable value (DESIGN.md §4 C14)"""
 import itertools
+import zlib
 
 import lark
 
@@ -202,7 +203,7 @@ def instances(tier):
     for n in names:
         out.append(Instance("single %s" % n, h_history((n,), 0), dict(kind="history", ops=[n], family=0)))
     for a, b in itertools.product(names, repeat=2):
-        fam = (hash((a, b)) % 3) if q else 0
+        fam = (zlib.crc32((a + ";" + b).encode()) % 3) if q else 0  # (deterministic: str hashes are salted per process)
         out.append(Instance("pair %s ; %s" % (a, b), h_history((a, b), fam), dict(kind="history", ops=[a, b], family=fam)))
     dup_ops = ["settings", "settings_by_index", "raw_settings", "raw_settings_by_index", "C2Http(aes+hmac)", "profile"]
     for a, b in itertools.product(dup_ops if q else names, repeat=2):
